@@ -45,15 +45,20 @@ pub fn gen_case(rng: &mut Rng, flavour: Flavour, thorough: bool) -> ModelCase {
     Flavour::C14 => *rng.pick(&[Profile::Basic, Profile::Nested, Profile::Nested, Profile::Unsafe, Profile::UnsafeNested, Profile::UnsafeNested]),
     _ => *rng.pick(&[Profile::Basic, Profile::Basic, Profile::Nested, Profile::Nested, Profile::Unsafe, Profile::UnsafeNested]),
   };
+  // swarm: one run in ten works on a large id space with bursts of adds
+  // (segments of a few hundred documents), one in six mixes in long documents
+  // (files written with several write calls)
+  let many = rng.chance(1, 10);
+  let big_every = if rng.chance(1, 6) { 2 + rng.below(4) as u32 } else { 0 };
   let cfg = Cfg {
     storage,
     profile,
     positions: rng.chance(1, 2),
-    ids: 2 + rng.usize(5),
+    ids: if many { 100 + rng.usize(200) } else { 2 + rng.usize(5) },
     // legal-but-unusual I/O behaviour (short writes, EINTR) in a third of the
     // FsStorage runs: it must change nothing
     transparent: storage == StorageKind::Fs && rng.chance(1, 3),
-    odd_ids: rng.chance(1, 4),
+    odd_ids: !many && rng.chance(1, 4),
   };
   let len = if rng.chance(4, 5) {
     2 + rng.usize(12)
@@ -80,6 +85,8 @@ pub fn gen_case(rng: &mut Rng, flavour: Flavour, thorough: bool) -> ModelCase {
     max_handles: if overlap { 1 + rng.usize(3) } else { 1 },
     overlap,
     weights,
+    big_every,
+    burst: if many { 30 + rng.below(170) as u32 } else { 0 },
   };
   let mut ops = gen_ops(rng, &cfg, &p);
   if storage == StorageKind::Fs && !cfg.profile.compact_unsafe() && rng.chance(1, 3) {
@@ -313,6 +320,10 @@ pub fn run_case(case: &ModelCase, wroot: &Path, flavour: Flavour, stats: &mut St
     Flavour::C28 => &["C28", "C04"],
   };
   let cfg = &case.cfg;
+  stats.add("probe.long_documents", case.ops.iter().filter(|o| matches!(o, Op::Add { ver, .. } if crate::work::is_big(*ver))).count() as u64);
+  if cfg.ids >= 100 {
+    stats.inc("probe.large_id_space_runs");
+  }
   let fs = if cfg.storage == StorageKind::Fs {
     let fs = SimFs::new(wroot);
     fs.with(|c| c.record = false);
